@@ -32,7 +32,7 @@ def main(argv=None):
         name = harness.find_check_module(args.target)
         check = harness.load_check(name)
         if args.replay:
-            return harness.replay_file(check, args.replay)
+            return harness.replay_file(check, args.replay, ignore_known=args.ignore_known)
         print("VERIF_SEED=%d property=%s tier=%s" % (args.seed, check.ID, args.tier))
         sys.stdout.flush()
         return harness.run_check(check, args.tier, args.seed, args.jobs, runs=args.runs, budget=args.budget,
